@@ -216,3 +216,17 @@ func runC10(r *Run) {
 	r.extra["programs"] = len(progs)
 	_ = strings.Join
 }
+
+func c10RenderFuncs(src string, data map[string]any, funcs vuego.FuncMap) (string, error) {
+	var buf bytes.Buffer
+	var err error
+	func() {
+		defer func() {
+			if x := recover(); x != nil {
+				err = fmt.Errorf("PANIC %v", x)
+			}
+		}()
+		err = vuego.New(vuego.WithFuncs(funcs)).Fill(data).RenderString(context.Background(), &buf, src)
+	}()
+	return buf.String(), err
+}
